@@ -161,6 +161,12 @@ def main(prop: str, tier: str, rep: common.Reporter | None = None, finish: bool 
         rep.cov['repimpl_design_check'] = ri
         rep.cov['states'] += ri['states']
         rep.cov['transitions'] += ri['transitions']
+        from checks import slots
+        sv = slots.run(rep, tier, {'views'}, plans=[(1, '{"set", "same", "clear"}', 'FALSE'), (2, '{"set", "vset", "clear"}', 'FALSE')])
+        rep.cov['derived_views_after_slot_edits'] = {k: v for k, v in sv.items() if k != 'sample'}
+        rep.cov['states'] += sv.get('states', 0)
+        rep.cov['transitions'] += sv.get('transitions', 0)
+        rep.cov['traces_validated_against_impl'] += sv.get('behaviours', 0)
         rb = repimpl.bind(rep, tier)
         rep.cov['repimpl_bound_to_code'] = rb
         rep.cov['states'] += rb['states']
